@@ -35,7 +35,8 @@ var c15Entries = []string{"template-render", "render-file", "vue-render", "vue-f
 func c15Content(file string, fmv, version int) string {
 	switch file {
 	case "page.vuego":
-		return fmt.Sprintf("---\nlayout: main\ntitle: T%d\n---\n<h1>page v%d {{ title }}</h1><template include=\"comp.vuego\"></template>", fmv, version)
+		// the page also hands a named slot to its layout: its content belongs to the page's version like the body does
+		return fmt.Sprintf("---\nlayout: main\ntitle: T%d\n---\n<template #side><nav>side v%d {{ title }}</nav></template><h1>page v%d {{ title }}</h1><template include=\"comp.vuego\"></template>", fmv, version, version)
 	case "comp.vuego":
 		return fmt.Sprintf("---\ncv: C%d\n---\n<i>comp v%d {{ cv }}</i>", fmv, version)
 	case "selfref.vuego": // a page whose top level REASSIGNS a variable of its own front-matter (a title suffix): read-modify-write per render
@@ -45,7 +46,7 @@ func c15Content(file string, fmv, version int) string {
 	case "layouts/base.vuego", "pages/post.vuego", "layouts/post.vuego":
 		return fmt.Sprintf("<section data-file=\"%s\" data-l=\"v%d\"><div v-html=\"content\"></div></section>", file, version)
 	default:
-		return fmt.Sprintf("---\nlv: L%d\n---\n<main data-l=\"v%d\" :data-f=\"lv\"><template v-html=\"content\"></template></main>", fmv, version)
+		return fmt.Sprintf("---\nlv: L%d\n---\n<aside><slot name=\"side\">no side</slot></aside><main data-l=\"v%d\" :data-f=\"lv\"><template v-html=\"content\"></template></main>", fmv, version)
 	}
 }
 
